@@ -160,7 +160,7 @@ fn derive(rng: &mut Rng, issuer: &[(u128, u128)], width: u32, allow_outside: boo
     if allow_outside {
         // push one end of one block (or a new block) outside the issuer's set
         match rng.below(4) {
-            0 if !out.is_empty() => { let i = rng.below(out.len() as u64) as usize; if out[i].1 < max { out[i].1 += 1 + rng.below(3) as u128; if out[i].1 > max { out[i].1 = max } } }
+            0 if !out.is_empty() => { let i = rng.below(out.len() as u64) as usize; if out[i].1 < max { out[i].1 = out[i].1.saturating_add(1 + rng.below(3) as u128); if out[i].1 > max { out[i].1 = max } } }
             1 if !out.is_empty() => { let i = rng.below(out.len() as u64) as usize; if out[i].0 > 0 { out[i].0 -= 1; } }
             2 => out.push((max - rng.below(5) as u128, max)),
             _ => out.push((rng.below(5) as u128, 7)),
